@@ -41,9 +41,9 @@ def feq(a, b):
 def run(ctx: core.Ctx):
     fl = core.import_fuzzylite()
     head = "SPECIFICATION Spec\nCONSTANTS Emit = {e}\n  Leaky = {l}\n"
-    ctx.expect_holds(ctx.tlc("MC_Consequent", write_cfg("MC_Consequent", head.format(e="FALSE", l="FALSE") + "".join(f"INVARIANT {i}\n" for i in INVS) + "CHECK_DEADLOCK FALSE\n"), workers=16), "MC_Consequent")
     ctx.expect_canary(ctx.tlc("MC_Consequent", write_cfg("MC_Consequent_canary", head.format(e="FALSE", l="TRUE") + "INVARIANT Independent\nINVARIANT OrderIndependent\nCHECK_DEADLOCK FALSE\n"), workers=16), "Leaky")
-    g = ctx.tlc("MC_Consequent", write_cfg("Gen_Consequent", head.format(e="TRUE", l="FALSE") + "INVARIANT EmitInv\nCHECK_DEADLOCK FALSE\n"), workers=1, timeout=1800)
+    g = ctx.tlc("MC_Consequent", write_cfg("MC_Consequent", head.format(e="TRUE", l="FALSE") + "".join(f"INVARIANT {i}\n" for i in INVS) + "INVARIANT EmitInv\nCHECK_DEADLOCK FALSE\n"), workers=16, timeout=1800)
+    ctx.expect_holds(g, "MC_Consequent")
     if len(g.emitted) < 6000:
         raise MachineryError(f"only {len(g.emitted)} consequents emitted")
     engines = {}
